@@ -33,7 +33,7 @@ CHECKS = {
         text="Every source of nondeterminism of safe Rust is shown absent or neutralised in the functions reachable from build(): hash-order taint "
              "(type-recognised unordered iterators and all their consumers), ambient sources (time/env/thread/fs/rand/addresses), statics, unsafe; "
              "input canonicalisation (sort, dedup, total-order comparator before any consumer); call history (settings by shared reference to a Freeze "
-             "type, write-only setters, who-may-write), no mutable global (lazily initialised statics with a Mutex/RefCell/atomic payload included) and no memo table keyed by less than what it memoises (MEMO-1); thorough adds compile-pass/compile_fail witnesses.",
+             "type, write-only setters, who-may-write), no mutable global (lazily initialised statics with a Mutex/RefCell/atomic payload included) and no memo table keyed by less than what it memoises (MEMO-1); build() leaves the builder's state as it found it up to canonicalisation (HIS-2); thorough adds compile-pass/compile_fail witnesses.",
         design_ref="DESIGN.md §4 C10",
         note=TRUST + "Determinism of the dependencies (petgraph, ndarray, itertools, regex) is assumed; one audited exception table entry "
                      "(regrouped sort in create_ranges_of_repetitions) is fingerprinted structurally.",
@@ -81,7 +81,7 @@ CHECKS = {
         category="other",
         text="Necessary conditions only: finality is transferred per state when the automaton is rebuilt and every inserted test case marks its last "
              "state final; every regex metacharacter (oracle: regex_syntax::is_meta_character of the locked version) is escaped per occurrence in literals "
-             "and in bracket classes; the single-code-point test that licenses bracket classes and group omission counts chars and measures every unit (CNT-1/2); the partition refinement has the shape of Hopcroft's algorithm and runs to the fixpoint (MIN-1..6); reader and remover of common prefixes/suffixes agree on positions (SUB-1); the union's necessary conditions hold (UNI-1..4: class merge only for single code points, `x?` from the non-empty side, prefix/suffix re-attached on the right side, an alternative dropped only when absent, equal or included per a verified class table); the first char of a grapheme stands for it only under a single-code-point test (FCH-1); a grapheme's own text is printed only where it was escaped and the literal printer escapes on every path (ESC-4, ESCP-2); under (?x) every ignored character is rewritten in literals and in bracket classes (VWS-1/2); class tokens are substituted only per tables equal to the engine's (TAB-1/2, CLS-1); edge labels are identified by their entries, not their joined text (LBL-1/2), escaping reaches every entry and every nesting level on every path (ESC-2/3). Breaking any of them makes some test case unmatched or the pattern invalid. That minimisation, elimination and "
+             "and in bracket classes; the single-code-point test that licenses bracket classes and group omission counts chars and measures every unit (CNT-1/2); the partition refinement has the shape of Hopcroft's algorithm and runs to the fixpoint (MIN-1..6); reader and remover of common prefixes/suffixes agree on positions (SUB-1); the union's necessary conditions hold (UNI-1..4: class merge only for single code points, `x?` from the non-empty side, prefix/suffix re-attached on the right side, an alternative dropped only when absent, equal or included per a verified class table); the first char of a grapheme stands for it only under a single-code-point test (FCH-1); the single-code-point predicate is exact (SCP-1), the trie lookup reuses an edge only under equal maxima (LBL-3), build() does not consume the test cases (HIS-2); a grapheme's own text is printed only where it was escaped and the literal printer escapes on every path (ESC-4, ESCP-2); under (?x) every ignored character is rewritten in literals and in bracket classes (VWS-1/2); class tokens are substituted only per tables equal to the engine's (TAB-1/2, CLS-1); edge labels are identified by their entries, not their joined text (LBL-1/2), escaping reaches every entry and every nesting level on every path (ESC-2/3). Breaking any of them makes some test case unmatched or the pattern invalid. That minimisation, elimination and "
              "printing preserve membership is not decided.",
         design_ref="DESIGN.md §4 C01",
         note=TRUST + "One genuine defect is recorded as a known finding (empty string loses finality: FIN-1) because its repair contradicts three pinned tests.",
@@ -149,7 +149,7 @@ CHECKS = {
         category="other",
         text="Delegation decided on the type-checked python feature build: each library setter has a sibling exported under the same Python name with an equal "
              "effect summary; thresholds and the constructor raise ValueError with the library's messages exactly when the library would panic; build returns the "
-             "library's pattern, rewritten iff escaping is on; every escape width the Rust side can emit is consumed by the rewriter and becomes \\u+4 / \\U+8 digits; an escaped backslash is consumed by an alternative of its own and returned unchanged (PYW-5).",
+             "library's pattern, rewritten iff escaping is on; the rewriting is applied under every setting that makes the library print \\u{..} (escaping; verbose mode: PYW-4); sibling setters have no other effects than the library's; every escape width the Rust side can emit is consumed by the rewriter and becomes \\u+4 / \\U+8 digits; an escaped backslash is consumed by an alternative of its own and returned unchanged (PYW-5).",
         design_ref="DESIGN.md §4 C14",
         note=TRUST + "pyo3's generated glue and CPython's re module are trusted; nothing is executed.",
         technique="static analysis: effect-summary agreement of sibling implementations, producer/consumer agreement on constant patterns and format templates",
